@@ -108,7 +108,7 @@ def num_variables_povmt (dim : Int) (m : Int) (on_para_eq_constraint : Bool) : I
 
 /-- quara/protocol/qtomography/standard/standard_qpt.py:71 `StandardQpt.__init__`: self._num_variables -/
 def num_variables_qpt (dim : Int) (on_para_eq_constraint : Bool) : Int :=
-  if on_para_eq_constraint = true then ((dim ^ (4 : Nat)) - (dim * (2 : Int))) else (dim ^ (4 : Nat))
+  if on_para_eq_constraint = true then ((dim ^ (4 : Nat)) - (dim ^ (2 : Nat))) else (dim ^ (4 : Nat))
 
 /-- quara/protocol/qtomography/standard/standard_qmpt.py:74 `StandardQmpt.__init__`: self._num_variables -/
 def num_variables_qmpt (dim : Int) (m : Int) (on_para_eq_constraint : Bool) : Int :=
